@@ -37,6 +37,7 @@ func NewValue(opts ...Option) *Value {
 }
 
 func (r *Value) Get(opts ...ReadOption) proto.Message {
+	defer verifhook.Yield("value.get") // runs once the value has been read and the read lock released
 	return r.get(ComputeReadConfig(opts...))
 }
 
